@@ -78,7 +78,8 @@ pub fn cfg_for(driver: &str, tier: &str) -> Option<(RCfg, u32)> {
             c.cb_others = true;
             c.max_cb_ops = 1;
             c.final_dispatches = 3;
-            (c, if q { 1 } else { 2 })
+            // two deviations also in the quick tier: "return a post-action" + "its registration call fails"
+            (c, if q { 2 } else { 3 })
         }
         // C01: composite with a TransientSource child in front of plain siblings (positional sub-ids)
         "composite" => {
